@@ -264,30 +264,42 @@ def cubic_spline(
                 lower = torch.where(below, middle, lower)
                 upper = torch.where(below, upper, middle)
             shifted_outputs = 0.5 * (lower + upper)
-        polished = torch.zeros_like(inputs, dtype=torch.bool)
-        for _ in range(2):
-            slopes_at_root = (
-                3 * inputs_a * shifted_outputs + 2 * inputs_b
-            ) * shifted_outputs + inputs_c
-            newton = (
-                shifted_outputs - (_cubic(shifted_outputs) - inputs) / slopes_at_root
-            )
-            # Keep a Newton step only where it stays inside the bracket (up to rounding), and
-            # never leave the bin.
-            tolerance = 8 * torch.finfo(inputs.dtype).eps * bin_widths
-            inside_bracket = (newton >= lower - tolerance) & (newton <= upper + tolerance)
-            newton = torch.max(torch.min(newton, bin_widths), torch.zeros_like(newton))
-            shifted_outputs = torch.where(inside_bracket, newton, shifted_outputs)
-            polished = polished | inside_bracket
-        if not polished.all():
-            # Where Newton's method is not trusted (nearly flat ends of a bin) finish by bisection.
-            with torch.no_grad():
+        with torch.no_grad():
+            polished = torch.zeros_like(inputs, dtype=torch.bool)
+            for _ in range(2):
+                slopes_at_root = (
+                    3 * inputs_a * shifted_outputs + 2 * inputs_b
+                ) * shifted_outputs + inputs_c
+                newton = (
+                    shifted_outputs - (_cubic(shifted_outputs) - inputs) / slopes_at_root
+                )
+                # Keep a Newton step only where it stays inside the bracket (up to rounding), and
+                # never leave the bin.
+                tolerance = 8 * torch.finfo(inputs.dtype).eps * bin_widths
+                inside_bracket = (newton >= lower - tolerance) & (newton <= upper + tolerance)
+                newton = torch.max(torch.min(newton, bin_widths), torch.zeros_like(newton))
+                shifted_outputs = torch.where(inside_bracket, newton, shifted_outputs)
+                polished = polished | inside_bracket
+            if not polished.all():
+                # Where Newton's method is not trusted (nearly flat ends of a bin) finish by bisection.
                 for _ in range(num_halvings + 3):
                     middle = 0.5 * (lower + upper)
                     below = _cubic(middle) < inputs
                     lower = torch.where(below, middle, lower)
                     upper = torch.where(below, upper, middle)
-            shifted_outputs = torch.where(polished, shifted_outputs, 0.5 * (lower + upper))
+                shifted_outputs = torch.where(polished, shifted_outputs, 0.5 * (lower + upper))
+        # The root was found without recording a graph. Its exact derivatives (implicit function
+        # theorem) are those of one Newton step written around it; the step's value is discarded,
+        # so every element - also where Newton's method was not trusted above - keeps the root
+        # found and receives the gradient of the true inverse.
+        root = shifted_outputs
+        slopes_at_root = (3 * inputs_a * root + 2 * inputs_b) * root + inputs_c
+        usable = slopes_at_root.detach() > 0
+        safe_slopes = torch.where(usable, slopes_at_root, torch.ones_like(slopes_at_root))
+        correction = torch.where(
+            usable, (_cubic(root) - inputs) / safe_slopes, torch.zeros_like(inputs)
+        )
+        shifted_outputs = root - (correction - correction.detach())
         outputs = shifted_outputs + input_left_cumwidths
 
         logabsdet = -torch.log(
